@@ -144,4 +144,5 @@ func genC13(t *testing.T) {
 		c.Script = randInterleave(r, seqs, []int{0, 0, 40}[r.IntN(3)])
 		run(c)
 	}
+	progsC13(t)
 }
